@@ -36,37 +36,52 @@ theorem probs_dist (n : ℕ) (v : List ℚ) (hlen : v.length = n) (h0 : ∀ i, 0
 
 /-! ### HITS -/
 
-theorem filter_length_eq_zero {α : Type} (p : α → Bool) (l : List α) (h : ∀ x ∈ l, p x = false) :
-    (l.filter p).length = 0 := by
-  rw [List.length_eq_zero_iff, List.filter_eq_nil_iff]
+theorem filter_eq_nil_of {α : Type} (p : α → Bool) (l : List α) (h : ∀ x ∈ l, p x = false) : l.filter p = [] := by
+  rw [List.filter_eq_nil_iff]
   intro x hx; rw [h x hx]; simp
+
+theorem list_sum_nonpos (l : List ℚ) (h : ∀ y ∈ l, y ≤ 0) : l.sum ≤ 0 := by
+  induction l with
+  | nil => simp
+  | cons a t ih =>
+    rw [List.sum_cons]
+    have := h a (by simp)
+    have := ih fun y hy => h y (by simp [hy])
+    linarith
 
 /-- ○ HITS: when the singular vector returned by the solver is sign-definite, the score is its absolute value -/
 theorem hitsPost_abs (v : List ℚ) (h : (∀ x ∈ v, 0 ≤ x) ∨ (∀ x ∈ v, x ≤ 0)) : hitsPost v = v.map fun x => |x| := by
   unfold hitsPost
   simp only
   rcases h with h | h
-  · have hneg : (v.filter fun x => decide (x < 0)).length = 0 :=
-      filter_length_eq_zero _ _ fun x hx => by simp [h x hx]
+  · have hneg : (v.filter fun x => decide (x < 0)) = [] :=
+      filter_eq_nil_of _ _ fun x hx => by simp [h x hx]
     rw [hneg]
     split
     · apply List.map_congr_left; intro x hx
       rw [if_neg (not_lt.mpr (h x hx)), abs_of_nonneg (h x hx)]
     · rename_i hpos
-      -- no positive entry either: the vector is null
+      -- no positive mass either: the vector is null
+      have hsum0 : (v.filter fun x => decide (0 < x)).sum ≤ 0 := by
+        have := not_lt.mp hpos; simpa using this
       have hz : ∀ x ∈ v, x = 0 := by
         intro x hx
         by_contra hne
         have hxpos : 0 < x := lt_of_le_of_ne (h x hx) (Ne.symm hne)
-        have : x ∈ v.filter fun x => decide (0 < x) := List.mem_filter.mpr ⟨hx, by simpa using hxpos⟩
-        have := List.length_pos_of_mem this
-        omega
+        have hmem : x ∈ v.filter fun x => decide (0 < x) := List.mem_filter.mpr ⟨hx, by simpa using hxpos⟩
+        have hall : ∀ y ∈ v.filter fun x => decide (0 < x), 0 ≤ y := fun y hy => h y (List.mem_filter.mp hy).1
+        have := List.single_le_sum hall x hmem
+        linarith
       apply List.map_congr_left; intro x hx
       rw [hz x hx]; simp
-  · have hpos : (v.filter fun x => decide (0 < x)).length = 0 :=
-      filter_length_eq_zero _ _ fun x hx => by simp [h x hx]
+  · have hpos : (v.filter fun x => decide (0 < x)) = [] :=
+      filter_eq_nil_of _ _ fun x hx => by simp [h x hx]
     rw [hpos]
-    rw [if_neg (Nat.not_lt_zero _)]
+    have hnn : ¬ (0 - (v.filter fun x => decide (x < 0)).sum < ([] : List ℚ).sum) := by
+      have hall : ∀ y ∈ v.filter fun x => decide (x < 0), y ≤ 0 := fun y hy => h y (List.mem_filter.mp hy).1
+      have : (v.filter fun x => decide (x < 0)).sum ≤ 0 := list_sum_nonpos _ hall
+      simp only [List.sum_nil]; linarith
+    rw [if_neg hnn]
     apply List.map_congr_left; intro x hx
     have hx0 := h x hx
     rw [if_neg (by linarith), abs_of_nonpos hx0]; ring
